@@ -377,17 +377,19 @@ pub fn add(run: &mut Run, kf: &KnownFindings, tier: &str) {
                 if sfmt == rfmt && sver == rver {
                     continue;
                 }
-                cases.push(Case {
-                    sfmt,
-                    rfmt,
-                    sver,
-                    rver,
-                    centry: "import",
-                    rentry: "forced_import",
-                    contents: "three",
-                    reopen_db: false,
-                    hold: true,
-                });
+                for contents in ["three", "holes"] {
+                    cases.push(Case {
+                        sfmt,
+                        rfmt,
+                        sver,
+                        rver,
+                        centry: "import",
+                        rentry: "forced_import",
+                        contents,
+                        reopen_db: false,
+                        hold: true,
+                    });
+                }
             }
         }
     }
